@@ -2,3 +2,4 @@
 pub mod proj;
 pub mod util;
 pub mod c19;
+pub mod c20;
